@@ -4,7 +4,7 @@ import itertools
 
 from pyvc import loader, regex
 from pyvc.core import And, Eq, Implies, Ite, Not, Or
-from pyvc.unit import unit
+from pyvc.unit import bare, unit
 
 APKF = "androguard/core/apk/__init__.py"
 META = {
@@ -88,7 +88,7 @@ class _Zip:
 
 
 def _apk(m, z):
-    a = object.__new__(m.APK)
+    a = bare(m.APK)
     a.zip = z
     return a
 
